@@ -37,6 +37,10 @@ def tagmap(w):
             arms[its[0][1]] = norm(shape.wcat(list(its[1:])))
         else:
             arms['?' + str(lab)] = norm(x)
+    # a branch on something that is not a byte of the input (`match Self::encoded_fixed_size() { Some(_) .. None .. }`)
+    # whose arms all read the same thing reads that thing
+    if arms and all(isinstance(k_, str) and k_.startswith('?') for k_ in arms) and len(set(arms.values())) == 1:
+        return next(iter(arms.values()))
     return ('alt', tuple(sorted(arms.items(), key=lambda kv: str(kv[0]))))
 
 
